@@ -1,6 +1,7 @@
 """C04 - Search always ends, obeys Stop, never panics (structural clauses X1-X8).
 
 NOT decided: any latency bound (time between polls, quiescence search is unpolled), behaviour under OS scheduling."""
+import json
 from facts import callee_name
 from terms import TermBuilder, return_term, show, walk, const_value
 import cfg
@@ -427,7 +428,22 @@ def x5_x6_control_and_sink(ck):
                             q = a.get("copy") or a.get("move")
                             if q is not None and q["l"] == l:
                                 used = True
-                ck.req(not used, "X6.discarded", cn.split("::")[-1], cb.where(t["line"]), "the Result of sink.send(event) is used (unwrap/expect): a dropped receiver would kill the search")
+                # ... nor may it decide anything: a branch on is_err() / a match on the result lets a dropped receiver change the search
+                for b2, blk in enumerate(cb.blocks):
+                    if blk.get("cleanup"):
+                        continue
+                    for s2 in blk["stmts"]:
+                        if s2["k"] == "assign":
+                            txt = json.dumps(s2["rv"])
+                            if ('"l": %d,' % l) in txt or ('"l": %d}' % l) in txt:
+                                used = True
+                    t2 = blk["term"]
+                    if t2["k"] == "switch":
+                        q = t2["discr"].get("copy") or t2["discr"].get("move")
+                        if q is not None and q["l"] == l:
+                            used = True
+                ck.req(not used, "X6.discarded", cn.split("::")[-1], cb.where(t["line"]),
+                       "the Result of sink.send(event) is used (unwrapped, tested or matched): a dropped receiver would kill or redirect the search")
     ck.floor("X6", sinks, 1, "status event send sites")
 
 
